@@ -116,3 +116,150 @@ package json
 //@   requires wfNumber(n)
 //@   ensures result == n.exp
 //@   no_panic
+
+// ---- NewNumber / Scan: grammar (NUM automaton of /verif/spec/number.smt2) and normal form --------------
+
+//@ func appendZeros
+//@   property C13 C02
+//@   requires true
+//@   modifies elems(to.data)
+//@   ensures len(result.data) == len(to.data) + (n > 0 ? n : 0)
+//@   ensures forall j :: 0 <= j && j < len(to.data) ==> result.data[j] == old(to.data[j])
+//@   ensures forall j :: len(to.data) <= j && j < len(result.data) ==> result.data[j] == 48
+//@   ensures result.data.arr == to.data.arr || fresh(result.data)
+//@   no_panic
+//@   loop#1 invariant n <= old(n) && len(to.data) == old(len(to.data)) + (old(n) > 0 ? old(n) : 0) - (n > 0 ? n : 0)
+//@   loop#1 invariant forall j :: 0 <= j && j < old(len(to.data)) ==> to.data[j] == old(to.data[j])
+//@   loop#1 invariant forall j :: old(len(to.data)) <= j && j < len(to.data) ==> to.data[j] == 48
+//@   loop#1 invariant to.data.arr == old(to.data.arr) || fresh(to.data)
+//@   loop#1 decreases n
+
+//@ func appendDigits
+//@   property C13 C02
+//@   requires from.data.arr != to.data.arr || to.data.arr == 0
+//@   modifies elems(to.data)
+//@   ensures len(result.data) == len(to.data) + mantcount(from.data, len(from.data))
+//@   ensures forall j :: 0 <= j && j < len(to.data) ==> result.data[j] == old(to.data[j])
+//@   ensures forall j :: len(to.data) <= j && j < len(result.data) ==> 48 <= result.data[j] && result.data[j] <= 57
+//@   ensures result.data.arr == to.data.arr || fresh(result.data)
+//@   no_panic
+//@   loop#1 invariant -1 <= rangeindex && rangeindex < len(from.data) && !mantstop(from.data, rangeindex+1)
+//@   loop#1 invariant len(to.data) == old(len(to.data)) + mantcount(from.data, rangeindex+1)
+//@   loop#1 invariant forall j :: 0 <= j && j < old(len(to.data)) ==> to.data[j] == old(to.data[j])
+//@   loop#1 invariant forall j :: old(len(to.data)) <= j && j < len(to.data) ==> 48 <= to.data[j] && to.data[j] <= 57
+//@   loop#1 invariant (to.data.arr == old(to.data.arr) || fresh(to.data)) && elems(from.data) == old(elems(from.data))
+//@   loop#1 decreases len(from.data) - rangeindex
+//@   at loop#1.entry use unfold_mantstop(from.data, 0); unfold_mantcount(from.data, 0)
+//@   at loop#1.back use unfold_mantstop(from.data, rangeindex+1); unfold_mantcount(from.data, rangeindex+1)
+//@   loop#1 use mantcount_bounds(from.data, rangeindex+1)
+//@   at return#1 use unfold_mantstop(from.data, rangeindex+1); unfold_mantcount(from.data, rangeindex+1); mantstop_mono(from.data, rangeindex+1, len(from.data))
+
+//@ func (*Number).trimLeadingZerosInTheIntegerPart
+//@   property C13 C02
+//@   requires n != nil && isDigitBytes(n.nat)
+//@   modifies n.nat
+//@   ensures (result == nil) == (0 <= old(n.exp) && old(n.exp) <= old(len(n.nat.data)))
+//@   ensures result == nil ==> n.exp == old(n.exp) && n.exp <= len(n.nat.data) && isDigitBytes(n.nat) && (len(n.nat.data) > n.exp ==> n.nat.data[0] != 48)
+//@   ensures result == nil ==> n.nat.data.arr == old(n.nat.data.arr) && n.nat.data.off + len(n.nat.data) == old(n.nat.data.off + len(n.nat.data)) && len(n.nat.data) <= old(len(n.nat.data))
+//@   ensures n.neg == old(n.neg)
+//@   no_panic
+//@   loop#1 invariant intLen == len(n.nat.data) - n.exp && intLen >= 0 && 0 <= n.exp && n.exp == old(n.exp) && isDigitBytes(n.nat)
+//@   loop#1 invariant n.nat.data.arr == old(n.nat.data.arr) && n.nat.data.off + len(n.nat.data) == old(n.nat.data.off + len(n.nat.data)) && len(n.nat.data) <= old(len(n.nat.data))
+//@   loop#1 decreases intLen
+
+//@ func (*Number).trimTrailingZerosInTheFractionalPart
+//@   property C13 C02
+//@   requires n != nil && isDigitBytes(n.nat)
+//@   modifies n.nat, n.exp
+//@   ensures (result == nil) == (0 <= old(n.exp) && old(n.exp) <= old(len(n.nat.data)))
+//@   ensures result == nil ==> 0 <= n.exp && n.exp <= len(n.nat.data) && isDigitBytes(n.nat) && (n.exp > 0 ==> n.nat.data[len(n.nat.data)-1] != 48)
+//@   ensures result == nil ==> n.nat.data.arr == old(n.nat.data.arr) && n.nat.data.off == old(n.nat.data.off) && len(n.nat.data) - n.exp == old(len(n.nat.data) - n.exp)
+//@   ensures n.neg == old(n.neg)
+//@   no_panic
+//@   loop#1 invariant 0 <= n.exp && n.exp <= len(n.nat.data) && isDigitBytes(n.nat)
+//@   loop#1 invariant n.nat.data.arr == old(n.nat.data.arr) && n.nat.data.off == old(n.nat.data.off) && len(n.nat.data) - n.exp == old(len(n.nat.data) - n.exp)
+//@   loop#1 decreases n.exp
+
+// Coupling of the number scanner's control state with the NUM automaton state q after the bytes read so
+// far; r is the index of the last byte read. In the dead state the code is only ever on its "doomed"
+// detour (a sign after exponent digits, e.g. 1e5+3), which ends in a ParseInt error.
+//@ pred scanBase(s *scanner, q Int, value bytes.Bytes, r Int) := fnenv(s.stateFn) == s && 0 <= q && q <= 9 && s.intLen >= 0 && s.fraLen >= 0 && s.intLen + s.fraLen == mantcount(value.data, r+1) && s.intLen <= r+1 && s.fraLen <= r+1 && s.expBegin >= 0
+//@ pred scanS(s *scanner, q Int, value bytes.Bytes, r Int) := q == NUM_S ==> fnis(s.stateFn, "(*scanner).stateOnSearchStart$bound") && s.intLen == 0 && s.fraLen == 0 && s.expBegin == 0 && !s.negative && r == -1 && !s.finished
+//@ pred scanM(s *scanner, q Int, value bytes.Bytes, r Int) := q == NUM_M ==> fnis(s.stateFn, "(*scanner).stateMinusFound$bound") && s.intLen == 0 && s.fraLen == 0 && s.expBegin == 0 && s.negative
+//@ pred scanZ(s *scanner, q Int, value bytes.Bytes, r Int) := q == NUM_Z ==> fnis(s.stateFn, "(*scanner).stateFirstZeroFound$bound") && s.intLen == 1 && s.fraLen == 0 && s.expBegin == 0
+//@ pred scanI(s *scanner, q Int, value bytes.Bytes, r Int) := q == NUM_I ==> fnis(s.stateFn, "(*scanner).stateIntegerNumberFound$bound") && s.intLen >= 1 && s.fraLen == 0 && s.expBegin == 0
+//@ pred scanP(s *scanner, q Int, value bytes.Bytes, r Int) := q == NUM_P ==> fnis(s.stateFn, "(*scanner).statePointFound$bound") && s.intLen >= 1 && s.fraLen == 0 && s.expBegin == 0
+//@ pred scanF(s *scanner, q Int, value bytes.Bytes, r Int) := q == NUM_F ==> fnis(s.stateFn, "(*scanner).stateFractionalNumberFound$bound") && s.intLen >= 1 && s.fraLen >= 1 && s.expBegin == 0
+//@ pred scanE(s *scanner, q Int, value bytes.Bytes, r Int) := q == NUM_E ==> fnis(s.stateFn, "(*scanner).stateExpFound$bound") && s.intLen >= 1 && s.expBegin == 0 && r >= 1
+//@ pred scanG(s *scanner, q Int, value bytes.Bytes, r Int) := q == NUM_G ==> fnis(s.stateFn, "(*scanner).stateExpSignFound$bound") && s.intLen >= 1 && r >= 2 && (s.expBegin == 0 || (s.expBegin == r && value.data[r] == 45))
+//@ pred scanX(s *scanner, q Int, value bytes.Bytes, r Int) := q == NUM_X ==> (fnis(s.stateFn, "(*scanner).stateExpFound$bound") || fnis(s.stateFn, "(*scanner).stateExpNumberFound$bound")) && s.intLen >= 1 && expDigits(s, value, r)
+//@ pred scanD(s *scanner, q Int, value bytes.Bytes, r Int) := q == NUM_D ==> (fnis(s.stateFn, "(*scanner).stateExpSignFound$bound") || fnis(s.stateFn, "(*scanner).stateExpNumberFound$bound")) && s.intLen >= 1 && 2 <= s.expBegin && s.expBegin <= r && !isdigits(value.data[(value.data[s.expBegin] == 45 ? s.expBegin + 1 : s.expBegin):], r + 1 - (value.data[s.expBegin] == 45 ? s.expBegin + 1 : s.expBegin))
+//@ pred scanFin(s *scanner, q Int, value bytes.Bytes, r Int) := q != NUM_D && r >= 0 ==> s.finished == num_acc(q)
+//@ pred scanStop(s *scanner, q Int, value bytes.Bytes, r Int) := (q == NUM_S || q == NUM_M || q == NUM_Z || q == NUM_I || q == NUM_P || q == NUM_F) == !mantstop(value.data, r+1)
+//@ pred scanExpVal(s *scanner, q Int, value bytes.Bytes, r Int) := q == NUM_X ==> natval(value.data[(value.data[s.expBegin] == 45 ? s.expBegin + 1 : s.expBegin):], r + 1 - (value.data[s.expBegin] == 45 ? s.expBegin + 1 : s.expBegin)) == numexp(value.data, r+1)
+
+// in the exponent digits: expBegin marks the '-' or the first digit, and everything after it is digits
+//@ pred expDigits(s *scanner, value bytes.Bytes, r Int) := 2 <= s.expBegin && s.expBegin <= r
+//@   && (value.data[s.expBegin] == 45 ==> s.expBegin < r && isdigits(value.data[s.expBegin+1:], r - s.expBegin))
+//@   && (value.data[s.expBegin] != 45 ==> isdigits(value.data[s.expBegin:], r + 1 - s.expBegin))
+
+//@ pred scanState(s *scanner, q Int, value bytes.Bytes, r Int) := scanBase(s, q, value, r) && scanS(s, q, value, r) && scanM(s, q, value, r) && scanZ(s, q, value, r) && scanI(s, q, value, r) && scanP(s, q, value, r) && scanF(s, q, value, r) && scanE(s, q, value, r) && scanG(s, q, value, r) && scanX(s, q, value, r) && scanD(s, q, value, r) && scanFin(s, q, value, r) && scanStop(s, q, value, r)
+
+//@ func (*scanner).Scan
+//@   property C13 C02
+//@   requires s != nil && scanState(s, NUM_S, value, -1) && !s.finished
+//@   requires len(value.data) <= 1099511627776
+//@   assumes number texts are shorter than 2^40 bytes (memory is otherwise unbounded in the model)
+//@   modifies *s
+//@   let vlen := len(value.data)
+//@   let q := numrun(value.data, vlen)
+//@   ensures result1 == nil ==> num_acc(q)
+//@   ensures result1 == nil ==> result0 != nil && fresh(result0) && wfNumber(*result0)
+//@   ensures result1 != nil ==> result0 == nil
+//@   ensures num_acc(q) ==> result1 == nil
+//@   no_panic
+//@   at return#1 use unfold_numrun(value.data, rangeindex+1); num_dead_absorbing(value.data, rangeindex+1, vlen); num_zexp_closed(value.data, rangeindex+1, vlen)
+//@   loop#1 invariant -1 <= rangeindex && rangeindex < vlen
+//@   loop#1 invariant scanBase(s, numrun(value.data, rangeindex+1), value, rangeindex)
+//@   loop#1 invariant scanS(s, numrun(value.data, rangeindex+1), value, rangeindex)
+//@   loop#1 invariant scanM(s, numrun(value.data, rangeindex+1), value, rangeindex)
+//@   loop#1 invariant scanZ(s, numrun(value.data, rangeindex+1), value, rangeindex)
+//@   loop#1 invariant scanI(s, numrun(value.data, rangeindex+1), value, rangeindex)
+//@   loop#1 invariant scanP(s, numrun(value.data, rangeindex+1), value, rangeindex)
+//@   loop#1 invariant scanF(s, numrun(value.data, rangeindex+1), value, rangeindex)
+//@   loop#1 invariant scanE(s, numrun(value.data, rangeindex+1), value, rangeindex)
+//@   loop#1 invariant scanG(s, numrun(value.data, rangeindex+1), value, rangeindex)
+//@   loop#1 invariant scanX(s, numrun(value.data, rangeindex+1), value, rangeindex)
+//@   loop#1 invariant scanD(s, numrun(value.data, rangeindex+1), value, rangeindex)
+//@   loop#1 invariant scanFin(s, numrun(value.data, rangeindex+1), value, rangeindex)
+//@   loop#1 invariant scanStop(s, numrun(value.data, rangeindex+1), value, rangeindex)
+//@   loop#1 invariant scanExpVal(s, numrun(value.data, rangeindex+1), value, rangeindex)
+//@   loop#1 decreases vlen - rangeindex
+//@   loop#1 use numrun_range(value.data, rangeindex+1); mantcount_bounds(value.data, rangeindex+1)
+//@   at call:setExp assert rangeindex == vlen
+//@   at call:setExp assert numrun(value.data, vlen) == NUM_X ==> natval(value.data[(value.data[s.expBegin] == 45 ? s.expBegin + 1 : s.expBegin):], vlen - (value.data[s.expBegin] == 45 ? s.expBegin + 1 : s.expBegin)) == numexp(value.data, vlen)
+//@   at call:setExp assert s.expBegin == 0 || numrun(value.data, vlen) == NUM_X || numrun(value.data, vlen) == NUM_D
+//@   at call:ParseInt.after assert ret1 == nil && value.data[s.expBegin] == 45 ==> ret0 == 0 - natval(value.data[s.expBegin+1:], len(value.data) - s.expBegin - 1)
+//@   at call:ParseInt.after assert ret1 == nil && value.data[s.expBegin] != 45 ==> ret0 == natval(value.data[s.expBegin:], len(value.data) - s.expBegin)
+//@   at call:ParseInt.after assert ret1 == nil ==> numrun(value.data, len(value.data)) == NUM_X
+//@   at call:ParseInt.after use natval_lt_pow10(value.data[s.expBegin+1:], len(value.data) - s.expBegin - 1); natval_lt_pow10(value.data[s.expBegin:], len(value.data) - s.expBegin)
+//@   at call:ParseInt.after assert numrun(value.data, len(value.data)) == NUM_X && value.data[s.expBegin] == 45 ==> natval(value.data[s.expBegin+1:], len(value.data) - s.expBegin - 1) == numexp(value.data, len(value.data))
+//@   at call:ParseInt.after assert numrun(value.data, len(value.data)) == NUM_X && value.data[s.expBegin] != 45 ==> natval(value.data[s.expBegin:], len(value.data) - s.expBegin) == numexp(value.data, len(value.data))
+//@   at call:ParseInt.after assert ret1 == nil && numexp(value.data, len(value.data)) <= 1099511627776 ==> 0 - 1099511627776 <= ret0 && ret0 <= 1099511627776
+//@   at loop#1.entry use unfold_numrun(value.data, 0); unfold_mantstop(value.data, 0); unfold_mantcount(value.data, 0)
+//@   at loop#1.back use unfold_numrun(value.data, rangeindex+1); unfold_mantstop(value.data, rangeindex+1); unfold_mantcount(value.data, rangeindex+1)
+//@   at loop#1.back use unfold_numexp(value.data, rangeindex+1); unfold_numexp(value.data, rangeindex)
+//@   at loop#1.back use unfold_natval(value.data[rangeindex:], 1); unfold_natval(value.data[rangeindex:], 0)
+//@   at loop#1.back use unfold_natval(value.data[s.expBegin:], rangeindex + 1 - s.expBegin); unfold_natval(value.data[s.expBegin+1:], rangeindex - s.expBegin)
+
+//@ func NewNumber
+//@   property C13 C02 C01
+//@   requires len(b.data) <= 1099511627776
+//@   assumes number texts are shorter than 2^40 bytes (memory is otherwise unbounded in the model)
+//@   let q := numrun(b.data, len(b.data))
+//@   ensures result1 == nil ==> num_acc(q)
+//@   ensures result1 == nil ==> result0 != nil && fresh(result0) && wfNumber(*result0)
+//@   ensures result1 != nil ==> result0 == nil
+//@   ensures num_acc(q) && q != NUM_XZ && numexp(b.data, len(b.data)) <= 1099511627776 ==> result1 == nil
+//@   no_panic
+//@   at call:Scan use unfold_mantcount(b.data, 0); unfold_mantstop(b.data, 0)
